@@ -697,7 +697,7 @@ func cliWork(line string) string {
 var taskPool = []string{"build", "lint", "docs", "pack", "gen", "vet", "ship"}
 var docPool = []string{"Run the thing", "Second doc", "Compile all of it", "Makes a package", "X", "Checks style and more", "needs >= 80% of statements (100%!)", "%d files, %s each %%",
 	"Compile the bindings for C#", "#1 priority", "Usage: make it so:", ": starts with a colon", "a # in the middle", "ends with a dot.", "...", "(in parentheses)", "tilde ~ and 'quotes'"}
-var statusPool = []int{1, 1, 2, 3, 7, 126, 127, 128, 130, 200, 254, 255}
+var statusPool = []int{1, 1, 2, 3, 7, 126, 127, 128, 129, 130, 137, 141, 143, 200, 254, 255}
 
 type gen struct {
 	rng *rand.Rand
